@@ -35,6 +35,7 @@ type RunResult struct {
 	NChoices   int                    `json:"nchoices,omitempty"`
 	Obs        []string               `json:"obs,omitempty"`
 	Scens      []string               `json:"scens,omitempty"`
+	Rules      map[string]string      `json:"rules,omitempty"`
 }
 
 var simEpoch = time.Date(2000, 1, 1, 0, 0, 0, 0, time.UTC)
@@ -48,6 +49,17 @@ func runOne(t *testing.T, sc *Scenario, seed uint64, replay []int, wantTrace boo
 		ch = NewReplayChooser(replay)
 	} else {
 		ch = NewChooser(seed)
+	}
+	if cl := os.Getenv("VERIF_CHOICELOG"); cl != "" {
+		// forensics for runs that kill the process: choices are appended to a file; the buffer
+		// is flushed by the kernel at quiescent points only (see K.bump)
+		f, err := os.Create(cl)
+		if err == nil {
+			bw := bufio.NewWriter(f)
+			ch.Log = func(v int) { fmt.Fprintf(bw, "%d\n", v) }
+			choiceLogFlush = func() { bw.Flush() }
+			defer func() { bw.Flush(); f.Close(); choiceLogFlush = nil }()
+		}
 	}
 	var k *K
 	t.Run(fmt.Sprintf("%s/%d", sc.Name, seed), func(t *testing.T) {
@@ -205,7 +217,11 @@ func TestWorker(t *testing.T) {
 		for _, s := range ScenariosFor(prop) {
 			names = append(names, fmt.Sprintf("%s:%d", s.Name, s.Weight))
 		}
-		emit(RunResult{Kind: "list", Prop: prop, Scens: names})
+		rules := map[string]string{}
+		for _, s := range ScenariosFor(prop) {
+			rules[s.Name] = s.Rule
+		}
+		emit(RunResult{Kind: "list", Prop: prop, Scens: names, Rules: rules})
 		return
 	}
 	sc := FindScenario(prop, os.Getenv("VERIF_SCEN"))
@@ -226,6 +242,7 @@ func TestWorker(t *testing.T) {
 		var rf struct {
 			Seed    uint64 `json:"seed"`
 			Choices []int  `json:"choices"`
+			// an explicit empty list is a valid (all-benign) replay; null means search mode
 		}
 		if err := json.Unmarshal(data, &rf); err != nil {
 			t.Fatal(err)
@@ -233,9 +250,8 @@ func TestWorker(t *testing.T) {
 		warmup(t, sc)
 		emit(RunResult{Kind: "begin", Prop: prop, Scen: sc.Name, Seed: rf.Seed})
 		kick()
-		if rf.Choices == nil {
-			rf.Choices = []int{}
-		}
+		// choices == null means "search mode with this seed" (used to re-run a seed whose
+		// original run killed the process before its choices could be reported)
 		emit(runOne(t, sc, rf.Seed, rf.Choices, true))
 		return
 	}
@@ -250,7 +266,7 @@ func TestWorker(t *testing.T) {
 		seed := a + uint64(i)
 		emit(RunResult{Kind: "begin", Prop: prop, Scen: sc.Name, Seed: seed})
 		kick()
-		emit(runOne(t, sc, seed, nil, wantTrace))
+		emit(runOne(t, sc, seed, nil, wantTrace || (i == 0 && os.Getenv("VERIF_SAMPLE") != "")))
 		runtime.GC()
 	}
 }
